@@ -1,0 +1,41 @@
+"""
+Verification hooks. Every call site is guarded by ``ENABLED``, which is only
+true when the environment variable ``PEDAL_EDU_PEDAL_VERIF`` is set to ``1``
+when pedal is imported; otherwise nothing in here is ever called.
+
+A checker installs callbacks with :py:func:`install`:
+
+* ``sync(point)`` is called at named synchronisation points of the threaded
+  execution path, so that an external scheduler can park the calling thread
+  and force a particular interleaving of the grader thread and the student
+  thread.
+* ``sink(event, fields)`` receives trace events emitted at the end of public
+  operations.
+"""
+import os
+
+ENABLED = os.environ.get("PEDAL_EDU_PEDAL_VERIF") == "1"
+
+_sync = None
+_sink = None
+
+
+def install(sync=None, sink=None):
+    """ Install (or, with None, remove) the checker's callbacks. """
+    global _sync, _sink
+    _sync = sync
+    _sink = sink
+
+
+def sync(point):
+    """ A named synchronisation point; a no-op unless a callback is installed. """
+    callback = _sync
+    if callback is not None:
+        callback(point)
+
+
+def emit(event, **fields):
+    """ A trace event; a no-op unless a sink is installed. """
+    callback = _sink
+    if callback is not None:
+        callback(event, fields)
